@@ -902,6 +902,30 @@ func (l *Lifter) srBlock(stmts []ast.Stmt, counts map[string]*countVar, limited 
 				}
 				continue
 			}
+		case *ast.DeferStmt:
+			// defer func() { r.Drain(); r.Reader = baseReader }()
+			if fl, ok := unparen(x.Call.Fun).(*ast.FuncLit); ok && top && len(x.Call.Args) == 0 && *limited {
+				drain, restore, other := false, false, false
+				for _, ds := range fl.Body.List {
+					switch y := ds.(type) {
+					case *ast.ExprStmt:
+						if recv, c, ok := methodCall(y.X, "Drain"); ok && l.isIdent(recv, "r") && len(c.Args) == 0 && !restore {
+							drain = true
+							continue
+						}
+					case *ast.AssignStmt:
+						if len(y.Lhs) == 1 && len(y.Rhs) == 1 && y.Tok == token.ASSIGN && Canon(y.Lhs[0]) == "r.Reader" && Canon(y.Rhs[0]) == l.Lim.BaseVar && l.Lim.BaseVar != "" {
+							restore = true
+							continue
+						}
+					}
+					other = true
+				}
+				if !other && (drain || restore) {
+					l.Lim.DeferredDrain, l.Lim.DeferredRestore = drain, restore
+					continue
+				}
+			}
 		case *ast.RangeStmt:
 			if id, ok := x.Key.(*ast.Ident); ok && x.Value == nil {
 				l.depth++
@@ -1007,8 +1031,11 @@ func (l *Lifter) srBlock(stmts []ast.Stmt, counts map[string]*countVar, limited 
 			l.Returns = append(l.Returns, r)
 			switch r {
 			case "r.Err":
-				if *limited {
+				if *limited && !l.Lim.DeferredRestore {
 					l.Lim.ReturnsBad = append(l.Lim.ReturnsBad, s.Pos())
+				}
+				if *limited && l.Lim.DeferredDrain {
+					l.fail("return", "", s.Pos(), "DecodeBebop returns r.Err, which is read before the deferred Drain runs: a failure noticed only while skipping the rest of the record is not reported")
 				}
 			case "nil":
 				if !(top && len(items) == 0) {
